@@ -80,6 +80,7 @@ from __future__ import annotations
 from typing import TYPE_CHECKING
 from typing import ClassVar
 
+from numpy import atleast_2d
 from numpy import concatenate
 from numpy import newaxis
 from numpy import zeros
@@ -144,8 +145,9 @@ class PolynomialRegressor(LinearRegressor):
         # n_powers = binom(n_inputs+degree, n_inputs)+1
         powers = self._poly.powers_
         n_inputs = get_n_input_features_(self._poly)
-        n_outputs = self.algo.coef_.shape[0]
-        coefs = self.get_coefficients()
+        # The coefficients are 1D for penalized regressions with a single output.
+        coefs = atleast_2d(self.get_coefficients())
+        n_outputs = coefs.shape[0]
         jac_intercept = zeros((n_outputs, n_inputs))
         jac_coefs = zeros((n_outputs, self._poly.n_output_features_, n_inputs))
 
